@@ -411,7 +411,7 @@ func (d *Driver) ConcurrentVia(s int, workers, per int, do func(id int) (string,
 	// read the log back (chain of unlimited reads from the greatest token known before this phase)
 	from := d.maxTok[s]
 	var order []int
-	for guard := 0; guard < 1000; guard++ {
+	for round := 0; round < 1000; round++ {
 		var got []*eb.StoredEvent
 		var next eb.Offset
 		err := guard(func() (e error) {
@@ -498,7 +498,7 @@ func (d *Driver) RunRandom(o Opts) {
 	// finish with a full chain over every store: paged chain from the oldest offset
 	for s := range d.env.Stores {
 		from := ""
-		for guard := 0; guard < 400; guard++ {
+		for round := 0; round < 400; round++ {
 			n0 := len(d.lines)
 			lim := o.Limits[d.rnd.IntN(len(o.Limits))]
 			var evs []*eb.StoredEvent
